@@ -370,6 +370,8 @@ func (sh *shaper) call(c *ssa.Call) *Shape {
 		return &Shape{K: "join", S: sep.S, Sub: []*Shape{sh.sliceElems(args[0])}}
 	case "strings.ReplaceAll":
 		return sh.replaceAll(c)
+	case "(*strings.Replacer).Replace":
+		return sh.replacer(c)
 	case "fmt.Sprintf":
 		return sh.sprintf(c)
 	case "fmt.Sprint":
@@ -471,6 +473,99 @@ func lenArg(v ssa.Value) ssa.Value {
 		}
 		return nil
 	}
+}
+
+// replacer: r.Replace(s) with r = strings.NewReplacer(E, E+E, c, E+c, …) over one-byte constants - written at the call
+// or kept in a package-level variable that is stored once, in init. A Replacer substitutes at each position of
+// the argument, without rescanning what it wrote, so with one-byte patterns it is the simultaneous per-byte escaping.
+func (sh *shaper) replacer(c *ssa.Call) *Shape {
+	r := c.Call.Args[0]
+	var mk *ssa.Call
+	switch x := r.(type) {
+	case *ssa.Call:
+		mk = x
+	case *ssa.UnOp:
+		g, ok := x.X.(*ssa.Global)
+		if !ok || x.Op != token.MUL || g.Pkg == nil {
+			return unknown("Replacer of unknown origin")
+		}
+		n := 0
+		for _, m := range g.Pkg.Members {
+			fn, ok := m.(*ssa.Function)
+			if !ok {
+				continue
+			}
+			fns := append([]*ssa.Function{fn}, fn.AnonFuncs...)
+			for _, f := range fns {
+				allInstrs(f, func(in ssa.Instruction) {
+					if st, ok := in.(*ssa.Store); ok && st.Addr == ssa.Value(g) {
+						n++
+						mk, _ = st.Val.(*ssa.Call)
+						if f.Name() != "init" {
+							n += 100 // reassigned at run time
+						}
+					}
+				})
+			}
+		}
+		if n != 1 {
+			return unknown("the Replacer variable %s is not set exactly once, in init", g.Name())
+		}
+	}
+	if mk == nil || calleeFull(&mk.Call) != "strings.NewReplacer" || len(mk.Call.Args) != 1 {
+		return unknown("Replacer of unknown origin")
+	}
+	sl, ok := mk.Call.Args[0].(*ssa.Slice)
+	if !ok {
+		return unknown("NewReplacer with a non-literal argument list")
+	}
+	al, ok := sl.X.(*ssa.Alloc)
+	if !ok {
+		return unknown("NewReplacer with a non-literal argument list")
+	}
+	pairs := map[int64]string{}
+	for _, ref := range *al.Referrers() {
+		ia, ok := ref.(*ssa.IndexAddr)
+		if !ok {
+			continue
+		}
+		ik, ok := ia.Index.(*ssa.Const)
+		if !ok {
+			return unknown("NewReplacer with a non-literal argument list")
+		}
+		for _, rr := range *ia.Referrers() {
+			if st, ok := rr.(*ssa.Store); ok && st.Addr == ssa.Value(ia) {
+				v := sh.of(st.Val)
+				if v.K != "const" {
+					return unknown("NewReplacer with non-constant arguments")
+				}
+				pairs[ik.Int64()] = v.S
+			}
+		}
+	}
+	n := int64(len(pairs))
+	if n == 0 || n%2 != 0 {
+		return unknown("NewReplacer with an odd argument list")
+	}
+	sh.of(c.Call.Args[1]) // provenance of the escaped text
+	esc, set := "", ""
+	for i := int64(0); i < n; i += 2 {
+		o, w := pairs[i], pairs[i+1]
+		if len(o) != 1 || len(w) != 2 || w[1] != o[0] || strings.Contains(set, o) {
+			return &Shape{K: "raw", Of: c}
+		}
+		if esc == "" {
+			esc = w[:1]
+		}
+		if w[:1] != esc {
+			return &Shape{K: "raw", Of: c}
+		}
+		set += o
+	}
+	if !strings.Contains(set, esc) {
+		return &Shape{K: "raw", Of: c} // the escape byte itself is not escaped
+	}
+	return &Shape{K: "esc", S: esc + strings.Replace(set, esc, "", 1), Of: c}
 }
 
 // inline returns the alternatives over the string results of fn's return sites.
